@@ -118,6 +118,34 @@ class Unmodelled(Exception):
     pass
 
 
+def host_plain(host):
+    """`hostPlain` of CpModel/Tls/Ext2.lean: the host names on which CPython's idna codec is the identity in both
+    directions (ASCII only, no `xn--` in any case, every label but the last 1..63 bytes, the last at most 63)"""
+    host = bytes(host)
+    if any(x >= 128 for x in host) or b'xn--' in host.lower():
+        return False
+    labels = host.split(b'.')
+    return all(0 < len(lb) < 64 for lb in labels[:-1]) and len(labels[-1]) < 64
+
+
+def c_name(item):
+    return hx(item.value.code.encode('utf-8'))
+
+
+def c_key_share(entry):
+    if type(entry).__name__ == 'TlsKeyShareEntryInvalidType':
+        return '{}:{}'.format(c_coded(entry.group), hx(entry.data))
+    return '{}:{}'.format(c_coded(entry.group), hx(bytes(bytearray(entry.key_exchange))))
+
+
+def c_sct(sct):
+    import calendar
+    millis = calendar.timegm(sct.timestamp.utctimetuple()) * 1000 + sct.timestamp.microsecond // 1000
+    return 'Sct({},{},{},{},E{},{})'.format(
+        int(sct.version), hx(bytes(sct.log.log_id.value)), millis, hx(bytes(bytearray(sct.extensions))),
+        sct.signature_algorithm.value.code, hx(bytes(bytearray(sct.signature))))
+
+
 def c_ext(e):
     from cryptoparser.tls.version import TlsProtocolVersion
     name = type(e).__name__
@@ -140,6 +168,30 @@ def c_ext(e):
         body = c_list([c_version(i) if isinstance(i, TlsProtocolVersion) else c_coded(i) for i in e.supported_versions])
     elif name == 'TlsExtensionSupportedVersionsServer':
         body = c_version(e.selected_version)
+    elif name == 'TlsExtensionServerNameClient':
+        try:
+            host = e.host_name.encode('ascii')
+        except UnicodeError:
+            raise Unmodelled(name)
+        if not host_plain(host):
+            raise Unmodelled(name)
+        body = hx(host)
+    elif name in ('TlsExtensionApplicationLayerProtocolNegotiation', 'TlsExtensionApplicationLayerProtocolSettings',
+                  'TlsExtensionNextProtocolNegotiationServer'):
+        body = c_list([c_name(p) for p in e.protocol_names])
+    elif name == 'TlsExtensionCertificateStatusRequestClient':
+        body = c_list([hx(bytes(bytearray(r))) for r in e.responder_id_list]) + '/' + hx(bytes(bytearray(e.request_extensions)))
+    elif name in ('TlsExtensionKeyShareClient', 'TlsExtensionKeyShareReservedClient'):
+        body = c_list([c_key_share(s) for s in e.key_share_entries])
+    elif name == 'TlsExtensionKeyShareServer':
+        body = c_key_share(e.key_share_entry)
+    elif name == 'TlsExtensionKeyShareClientHelloRetry':
+        body = 'E{}'.format(e.selected_group.value.code)
+    elif name == 'TlsExtensionTokenBinding':
+        body = '{}.{}:{}'.format(e.protocol_version.major, e.protocol_version.minor,
+                                 c_list([c_coded(p) for p in e.parameters]))
+    elif name == 'TlsExtensionSignedCertificateTimestampServer':
+        body = c_list([c_sct(s) for s in e.scts])
     else:
         raise Unmodelled(name)
     return '{}({},{})'.format(name, typ, body)
@@ -175,6 +227,12 @@ def c_handshake(m):
         return 'TlsHandshakeCertificateStatus({},{})'.format(int(m.status_type), hx(m.status))
     if name == 'TlsHandshakeServerHelloDone':
         return 'TlsHandshakeServerHelloDone()'
+    if name == 'TlsHandshakeCertificateRequest':
+        algs = m.supported_signature_algorithms
+        return 'TlsHandshakeCertificateRequest({},{},{})'.format(
+            c_list([str(int(t)) for t in m.certificate_types]),
+            '~' if algs is None else c_list([c_coded(a) for a in algs]),
+            c_list([hx(bytes(bytearray(dn))) for dn in m.certificate_authorities]))
     raise Unmodelled(name)
 
 
@@ -197,6 +255,7 @@ def modelled():
         'TlsHandshakeServerKeyExchange': (sp.TlsHandshakeServerKeyExchange, c_handshake),
         'TlsHandshakeCertificateStatus': (sp.TlsHandshakeCertificateStatus, c_handshake),
         'TlsHandshakeServerHelloDone': (sp.TlsHandshakeServerHelloDone, c_handshake),
+        'TlsHandshakeCertificateRequest': (sp.TlsHandshakeCertificateRequest, c_handshake),
         'TlsHandshakeMessageVariant': (sp.TlsHandshakeMessageVariant, c_handshake),
         'TlsExtensionVariantClient': (ex.TlsExtensionVariantClient, c_ext),
         'TlsExtensionVariantServer': (ex.TlsExtensionVariantServer, c_ext),
